@@ -266,7 +266,7 @@ def compare_replies(ctx, rule, n, rs, ra, loc):
         for cand in rs:
             if cand[0] != kind or set(cand[1]) != set(fa):
                 continue
-            d = [k for k in fa if fa[k] != cand[1][k]]
+            d = [k for k in fa if not vf.same_text(fa[k], cand[1][k])]
             if bd is None or len(d) < len(bd):
                 best, bd = cand, d
         if best is None:
@@ -309,7 +309,7 @@ def r2_handlers(ctx, A):
             for k, (x, y) in enumerate(zip(fs_s[1], fs_a[1])):
                 if x.startswith("Zc") or y.startswith("Zc") or "closure(" in x or "AsyncZc" in y:
                     continue        # reader/writer adapters differ by construction
-                ctx.check("R2-handler-agreement", "%s/arg-%s" % (n, pn[k] if k < len(pn) else k), x == y,
+                ctx.check("R2-handler-agreement", "%s/arg-%s" % (n, pn[k] if k < len(pn) else k), vf.same_text(x, y),
                           "async_%s passes `%s` as %s, %s passes `%s`" % (n, y[:200], pn[k] if k < len(pn) else k, n, x[:200]), loc=ha.loc())
             ctx.check("R2-handler-agreement", n + "/arity", len(fs_s[1]) == len(fs_a[1]), "argument count differs for %s" % n, loc=ha.loc())
         if n not in ("read", "write"):
